@@ -114,6 +114,11 @@ def run_impl(pair, hist, diag_present, catch_last):
   mb = build_measurement('mb', SPECS[pair[1]])
 
   def body(test):
+    # handles on the dimensioned measurements, taken once at the start of the phase (a common style: `dim = test.measurements.dim`)
+    handles = {}
+    for nm, code in zip(('ma', 'mb'), pair):
+      if SPECS[code]['kind'] != 'scalar':
+        handles[nm] = test.measurements[nm]
     for i, op in enumerate(hist):
       last = i == len(hist) - 1
       try:
@@ -123,11 +128,21 @@ def run_impl(pair, hist, diag_present, catch_last):
             _ = (mv.value, str(mv), dict(mv))
           except Exception:  # pylint: disable=broad-except
             pass
+          # ... other ways of looking that change nothing: an immutable copy for the phase, a station's state snapshot
+          for look in (lambda: test.get_measurement(op[1]), lambda: test._running_test_state.asdict_with_event()):  # pylint: disable=protected-access
+            try:
+              look()
+            except Exception:  # pylint: disable=broad-except
+              pass
         elif op[0] == 'set':
           test.measurements[op[1]] = op[2]
         else:
           c = op[2]
-          test.measurements[op[1]][tuple(c) if len(c) != 1 else c[0]] = op[3]
+          key = tuple(c) if len(c) != 1 else c[0]
+          if op[1] in handles and c[-1] == 1 and len(c) == (1 if SPECS[pair[0 if op[1] == 'ma' else 1]]['kind'] == 'dim1' else 2):
+            handles[op[1]][key] = op[3]            # through the handle taken at the start of the phase
+          else:
+            test.measurements[op[1]][key] = op[3]
         log.append(('ok',))
       except Exception as e:  # pylint: disable=broad-except
         log.append(('raised', type(e).__name__))
